@@ -6,6 +6,7 @@ package main
 
 import (
 	"bufio"
+	"os"
 	"math"
 	"fmt"
 	"io"
@@ -153,6 +154,7 @@ func (s *Solver) Check(extra ...*Term) string {
 	var refs []string
 	for _, e := range extra {
 		if e.IsFalse() {
+			s.raw("(push 1)") // keep Pop balanced
 			return "unsat"
 		}
 		if !e.IsTrue() {
@@ -168,6 +170,10 @@ func (s *Solver) Check(extra ...*Term) string {
 	s.Queries++
 	s.Time += time.Since(t0)
 	if res != "sat" && res != "unsat" {
+		if os.Getenv("VERIF_DEBUG") != "" {
+			fmt.Fprintln(os.Stderr, "SOLVER SAID:", res)
+			os.WriteFile("/tmp/gosym-unknown.smt2", []byte(s.ScriptSnapshot()), 0644)
+		}
 		// drain nothing more; treat as inconclusive. A dead solver is restarted.
 		if strings.Contains(res, "died") {
 			s.start()
